@@ -15,6 +15,9 @@ ASSUMPTIONS = ["sequential use of progress.Stats for the aggregation theorems (m
 
 def corpus():
     return [
+        "progress.seq s9007199254740993,s1,T",        # C17l: sums beyond 2^53 ns (2500 hours of iteration time) are still exact integers
+        "progress.seq f9007199254740993,f3,S1,f1,T",
+        "progress.seq s3600000000001,s3600000000001,s3600000000001,S1,s9007199254740993,T",
         "progress.seq s0,s0,f0,f0,f0,S1000,T",      # C08k: failures that took 0 ns are failures
         "progress.seq s5,f0,S1,f0,f0,S1,s7,T",
         "progress.seq f0,T",
